@@ -143,6 +143,7 @@ NOSC = {"typ": "none", "a": 0, "b": 1}
 
 def normalise(events):
     out = []
+    keys = {}
     for e in events:
         r = {"op": e["op"], "name": "", "out": e.get("out", []), "in": e.get("in", []), "i": [], "sc": NOSC, "aux": [], "aux2": [], "n": [], "scs": []}
         op = e["op"]
@@ -151,6 +152,16 @@ def normalise(events):
                 r["name"] = "offgrid"
                 r["in"] = [int(e["id"][0])]
                 r["i"] = [units(e["t"][0])]
+                out.append(r)
+                continue
+            if e["name"] == "lml":
+                r["name"] = "lml"
+                r["i"] = [int(v) for v in e["ints"]]
+                out.append(r)
+                continue
+            if e["name"] == "sample":
+                r["name"] = "sample"
+                r["in"] = [int(v) for v in e["ids"]]
                 out.append(r)
                 continue
             if e["name"] == "errnorm":
@@ -185,8 +196,14 @@ def normalise(events):
             r["in"] = []
         elif op in ("marg", "revert", "apply", "merge", "ident"):
             pass
-        elif op in ("read_std", "read_mean", "rms"):
+        elif op in ("read_std", "read_mean", "rms", "logpdf"):
             pass
+        elif op == "to_derivative":
+            # sc = [tcoeff index, sum of the noise std]; the harness encodes the output-time index j as std = j * ones(D)
+            r["i"] = [int(e["sc"][0]), int(round(e["sc"][1] / tracing.D))]
+        elif op == "sample":
+            k = (int(e["sc"][0]), int(e["sc"][1]))
+            r["i"] = [keys.setdefault(k, len(keys) + 1), 0]
         else:
             # logpdf, sample, to_derivative: no term is created by the generic validator
             if e.get("out"):
@@ -245,6 +262,10 @@ def validate(traces, timeout_s=900):
         tlc.cleanup(wd)
     verdicts = {obj["tid"]: obj for tag, obj in res.prints if tag == "VERDICT"}
     mles = {obj["tid"]: obj for tag, obj in res.prints if tag == "MLE"}
+    res.lml = {}
+    for tag, obj in res.prints:
+        if tag == "LML":
+            res.lml.setdefault(obj["tid"], []).append(obj)
     out = []
     for i, tr in enumerate(traces):
         v = verdicts.get(i + 1)
@@ -308,8 +329,8 @@ class L1Runner:
         self.fn = jax.jit(fn) if jit else fn
         self.offgrid = jax.jit(lambda t, sol: self.solver.offgrid_marginals(t, solution=sol))
 
-    def run(self, beh=None, offgrid_times=()):
-        """-> trace dict {hdr, ev} (+ the solution object)"""
+    def run(self, beh=None, offgrid_times=(), consumers=()):
+        """-> trace dict {hdr, ev} (+ the solution object); consumers: list of dicts for consume_posterior"""
         TR.reset()
         self.log.clear()
         prior = tracing.make_prior(self.n)
@@ -323,12 +344,34 @@ class L1Runner:
             est = self.offgrid(jnp.asarray(t / UNIT), sol)
             TR.marker("offgrid", {"t": jnp.asarray(t / UNIT), "id": est.mean_flat})
             jax.effects_barrier()
+        self.consumed = [consume_posterior(self, sol, **c) for c in consumers]
         if self.mode == "fixed_grid":
             ck = self.cfg["Ckpts"]
             steps = [{"t": ck[i], "h": ck[i + 1] - ck[i]} for i in range(len(ck) - 1)]
         else:
             steps = accepted_steps(self.log.events)
         return {"hdr": _hdr(self.solver_name, self.strat, self.initc, steps), "ev": normalise(TR.events), "raw_q": q_factors(TR.events)}, sol
+
+
+def consume_posterior(runner, sol, *, what, tcoeff_index=0, average=True, key=None):
+    """run a consumer of the finalised posterior on the tracing objects; appends events + a marker to TR; -> returned value"""
+    post = sol.solution_full.posterior
+    n_out = int(np.shape(sol.t)[0])
+    if what == "lml":
+        models = [post.marginal.to_derivative(tcoeff_index, jnp.full((tracing.D,), float(j + 1))) for j in range(n_out)]
+        model = jax.tree_util.tree_map(lambda *xs: jnp.stack(xs), *models)
+        u = jnp.ones((n_out, tracing.D))
+        val = post.evaluate_lml([u], model=model, average_pdfs=average, solve_triu=None)
+        TR.marker("lml", {"ints": jnp.asarray([n_out, int(average), tcoeff_index], dtype=jnp.float64)})
+        jax.effects_barrier()
+        return float(val)
+    if what == "sample":
+        smp = post.sample(key if key is not None else jax.random.PRNGKey(0))
+        ids = jnp.concatenate([jnp.ravel(x) for x in jax.tree_util.tree_leaves(smp)])
+        TR.marker("sample", {"ids": ids})
+        jax.effects_barrier()
+        return None
+    raise ValueError(what)
 
 
 def validate_parallel(traces, chunk=12, nproc=8, timeout_s=1200):
